@@ -1,7 +1,7 @@
 """C03 — decoder output conforms to the RFC 6716 reference decoder (DESIGN.md §7.C03, §10).
 
 Bit-stream half, stage 1 (SILK symbol layer): the Lean model OpusModel/SilkSyms.lean is the frozen normative
-reference for which symbols the decoder reads, in which order, with which probability tables; the real
+reference for which symbols the decoder reads, in which order, with which (FROZEN, lean/OpusModel/SilkSymsFrozen.lean) probability tables; the real
 opus_decode must reproduce every decoded index, pulse array, header flag and range-coder state on arbitrary bytes.
 PCM half: no reference decoder or RFC test vectors exist offline; a committed self-reference corpus compared
 with the repo's own src/opus_compare.c guards it as a REGRESSION ORACLE (not a proof, not the RFC vectors)."""
@@ -76,8 +76,8 @@ def ties(ctx):
     h = _harness(ctx, 'san')
     q = ctx.quick
     s = str(ctx.seed)
-    out = [common.run_tie('silksyms-rand', [h, 'rand', s, '40000' if q else '600000']),
-           common.run_tie('silksyms-real', [h, 'real', s, '200' if q else '4000'])]
+    out = [common.run_tie('silksyms-rand', [h, 'rand', s, '40000' if q else '400000']),
+           common.run_tie('silksyms-real', [h, 'real', s, '200' if q else '3000'])]
     return out
 
 
@@ -204,7 +204,7 @@ def search(ctx):
     """S4 on the implementation only: (1) decoder final range == encoder final range on real encoder streams over modes,
     bandwidths, durations, stereo, transitions, repacketised + padded packets; (2) self-reference PCM corpus vs opus_compare."""
     h = _harness(ctx, 'plain')
-    n = 400 if ctx.quick else 10000
+    n = 400 if ctx.quick else 8000
     rc, out = common.sh([h, 'search', str(ctx.seed), str(n)], timeout=3000)
     wit, cases, info = [], 0, ''
     for line in out.split('\n'):
@@ -269,7 +269,8 @@ def replay(ctx, obj):
     return 0
 
 
-LEVEL_TEXT = ('partial proof (bit-stream half, SILK symbol layer): an executable Lean model of the SILK symbol layer as driven by '
+LEVEL_TEXT = ('partial proof (bit-stream half, SILK symbol layer): an executable Lean model of the SILK symbol layer (with frozen '
+              'normative tables, proved equal to the tables regenerated from the tree) as driven by '
               'opus_decode (header flags, LBRR skipping, stereo predictor, indices, pulses with shell/LSB/sign decoding, conditional '
               'coding, redundancy header) is the frozen normative reference; kernel-checked: it is total and never leaves a table '
               '(every decoded index lies inside the table it later indexes, every ICDF slice it scans is well-formed and stops '
